@@ -134,6 +134,7 @@ type VC struct {
 	verifyingBody bool
 	absQuant bool // quantifiers over slice indices are rewritten to absolute addresses
 	jsonAx   bool
+	params   []*Val // entry values of the parameters (for replay)
 }
 
 func (vc *VC) fresh(prefix, sort string) string {
@@ -233,6 +234,9 @@ func (vc *VC) heap(st *State, t types.Type) (key, term string) {
 		if ax := vc.refsBelowAxiom(n, vc.u.heapKeys[key], vc.alloc0); ax != "" {
 			vc.globals = appendUnique(vc.globals, "(assert "+ax+")")
 		}
+	}
+	if ax := vc.elemWfAxiom(n, vc.u.heapKeys[key]); ax != "" {
+		vc.globals = appendUnique(vc.globals, "(assert "+ax+")")
 	}
 	st.heaps[key] = n
 	return key, n
@@ -475,4 +479,14 @@ func appendUnique(xs []string, x string) []string {
 		}
 	}
 	return append(xs, x)
+}
+
+// elemWfAxiom: every element of heap array h satisfies its type's invariants
+// (integer ranges, slice header sanity, interface representation).
+func (vc *VC) elemWfAxiom(h string, t types.Type) string {
+	fs := vc.wfFacts("(select "+h+" a)", t, 0)
+	if len(fs) == 0 {
+		return ""
+	}
+	return fmt.Sprintf("(forall ((a Int)) (! %s :pattern ((select %s a))))", and(fs...), h)
 }
